@@ -998,11 +998,6 @@ Definition fd_BaseContent_x (oid : result bytes) :=
   fd_BaseContent (fun _ _ => oid) dateparse_none.
 
 (* ------------------------------------------------------------------ examples *)
-Example ex_fmt_offset : fmt_offset (-330) true = bs "-0530". Proof. vm_compute. reflexivity. Qed.
-Example ex_parse_offset : parse_offset_bytes (bs "+10000") = Ok 6000%Z. Proof. vm_compute. reflexivity. Qed.
-Example ex_swhid_c :
-  swhid_parse_c Core (swhid_str_c Core t_rev (repeat 171 20)) = Ok (t_rev, repeat 171 20).
-Proof. vm_compute. reflexivity. Qed.
 
 (* ------------------------------------------------------------------ specification-level definitions *)
 (* Which values are objects of the model classes (the quantifier of C12):
